@@ -43,16 +43,17 @@ def known_matcher(v, k):
 
 # ---------------------------------------------------------------------------------------------
 
-def write_cfg(path, maxlen, elo, ehi, mode, optpick, emit):
+def write_cfg(path, maxlen, elo, ehi, mode, optpick, emit, widemod=1):
     with open(path, "w") as f:
         f.write("CONSTANTS MaxLen = %d\n          ELo = %d\n          EHi = %d\n          Mode = \"%s\"\n"
-                "          OptPick = \"%s\"\n          Emit = \"%s\"\n" % (maxlen, elo + 100, ehi + 100, mode, optpick, emit))
+                "          OptPick = \"%s\"\n          WideMod = %d\n          Emit = \"%s\"\n"
+                % (maxlen, elo + 100, ehi + 100, mode, optpick, widemod, emit))
         f.write("SPECIFICATION Spec\nINVARIANTS InvAll\nCHECK_DEADLOCK FALSE\n")
 
 
-def gen(rep, label, maxlen, elo, ehi, mode, optpick="all", emit="cases", timeout=1500):
+def gen(rep, label, maxlen, elo, ehi, mode, optpick="all", emit="cases", widemod=1, timeout=1500):
     cfg = os.path.join(nv.SPEC, "_gen_NumFormat_%s_%d.cfg" % (label, os.getpid()))
-    write_cfg(cfg, maxlen, elo, ehi, mode, optpick, emit)
+    write_cfg(cfg, maxlen, elo, ehi, mode, optpick, emit, widemod)
     try:
         res = nv.tlc("MC_NumFormat", os.path.basename(cfg), workers=8, timeout=timeout, want_tags=("CASE", "META"))
     finally:
@@ -135,10 +136,11 @@ def g_run(rep, cases, meta, sc, label, trace_every):
     for c, r in zip(cases, results):
         o = opts[c["o"] - 1]
         prob, drifted = compare_case(c, o, r)
-        rep.add("evaluations", 1)
         rep.add("g_cases_" + {"I": "integer", "F": "float", "K": "keyword"}[c["k"]], 1)
-        if not r.get("exact", True):
-            inexact += 1
+        if prob is None and not r.get("exact", True):
+            inexact += 1          # counted as an evaluation when TLC has judged it
+        else:
+            rep.add("evaluations", 1)
         if prob:
             rep.violation(dict(prob, model=label), known_matcher)
         elif drifted:
@@ -173,6 +175,13 @@ def describe_rejection(ev):
     return why or ["Judge/ReadBackAgrees"]
 
 
+def _count(rep, what, lines):
+    """judged lines; G cases that Python compared as well (exact decimals, sampled) are not counted twice"""
+    n = sum(1 for x in lines if '"exact":true' not in x)
+    rep.add("evaluations", n)
+    rep.add(what + "_events", len(lines))
+
+
 def judge_traces(rep, paths, what):
     """validate traces with Trace_NumFormat; a trace stops at its first rejected line: the line is reported, the rest
     of the trace is re-submitted so that every line gets judged"""
@@ -185,13 +194,11 @@ def judge_traces(rep, paths, what):
         for p, r in zip(todo, results):
             lines = open(p).read().splitlines()
             if r["accepted"]:
-                rep.add("evaluations", len(lines))
-                rep.add(what + "_events", len(lines))
+                _count(rep, what, lines)
                 rep.add("traces_validated_against_impl", 1)
                 continue
             m = r["matched"] if r["matched"] is not None else 0
-            rep.add("evaluations", m)
-            rep.add(what + "_events", m)
+            _count(rep, what, lines[:m])
             bad = json.loads(lines[m]) if m < len(lines) else None
             one = p + ".one"
             open(one, "w").write(lines[m] + "\n")
@@ -260,7 +267,7 @@ def run(tier, seed):
     nv.build_harness([BIN])
     sc = nv.scratch("c14")
     if tier == "quick":
-        plan = [("main_len3", dict(maxlen=3, elo=-12, ehi=22, mode="main"), 40)]
+        plan = [("main_len3", dict(maxlen=3, elo=-12, ehi=22, mode="main", widemod=3), 40)]
         jn, jev = 6, 2000
     else:
         plan = [("patterns", dict(maxlen=1, elo=-12, ehi=22, mode="patterns"), 25)]
@@ -269,7 +276,7 @@ def run(tier, seed):
         for lo, hi in ((-8, -5), (-1, 1), (4, 7), (14, 16)):
             plan.append(("short_len5_hash_e%d_%d" % (lo, hi), dict(maxlen=5, elo=lo, ehi=hi, mode="short", optpick="hash"), 150))
         jn, jev = 16, 4000
-    plan.append(("extreme", dict(maxlen=1, elo=-8, ehi=8, mode="extreme"), 1))
+    plan.append(("extreme", dict(maxlen=1, elo=-8, ehi=8, mode="extreme"), 0))   # all compared by Python
     first = None
     gtraces = []
     for label, kw, every in plan:
@@ -293,7 +300,8 @@ def run(tier, seed):
         jpaths.append(p)
     judge_traces(rep, jpaths, "j")
     rep.sample({"J_event": json.loads(open(jpaths[0]).readline())})
-    if first and not rep.violations:
+    # binding self-tests (skipped only if the sane-settings part itself found something)
+    if first and not [v for v in rep.violations if v.get("model") != "extreme"]:
         selftests(rep, first[0], first[1], first[2], jpaths[0], sc)
     rep.set("rule", "G: every canonical digit string up to the length bound x exponents -12..22 x 5 option sets, ~200 "
             "boundary patterns (9..9, 9..95, 10..01, ties, 2^52/2^53 +-1, 15-17 digit constants) x 35 exponents x 18 option "
